@@ -124,6 +124,7 @@ def run_overlay(work, binary, cases_path, trace_path, seed, concrete=False):
 
 def produce(work, binary, tier, seed):
     cases, ngen = generate(work, seed)
+    work.cases_path = cases
     trace = work.path("trace.ndjson")
     rounds = 1 if tier == "quick" else 3
     parts = []
@@ -146,6 +147,31 @@ def produce(work, binary, tier, seed):
                 f.write(json.dumps(c, separators=(",", ":")) + "\n")
                 n += 1
     return trace, ngen
+
+
+RACE_DIRS = ["app", "client", "trace", "scripted", "reqview", "c09"]
+RACE_SCOPE = ("trustedproxy.", "requestcontext.", "proxy.", "decision.", "httpx.")
+
+
+def race_part(work, cases, seed, n, tag=""):
+    """A sample of the cases on the -race build: requests of trusted and untrusted peers are in flight
+    on one service at the same time (4 per service); a data race reported in the code that strips,
+    extracts and forwards the headers means that one request's trust decision or view can reach
+    another request under some schedule."""
+    import c1617
+    binary = c1617.build("c09drv", RACE_DIRS, True)
+    rl = work.path("race%s" % tag)
+    tf = work.path("race%s.trace.ndjson" % tag)
+    out, err, rc = c1617.run(binary, ["-cases", cases, "-trace", tf, "-seed", seed + 77, "-max", n, "-workers", 6],
+                             race_log=rl, timeout=1500)
+    if rc != 0:
+        raise Infra("race run failed (rc=%d):\n%s" % (rc, (out + err)[-3000:]))
+    reports = c1617.race_reports(rl)
+    relevant, unrelated = [], []
+    for r in reports:
+        frames = c1617.race_frames(r)
+        (relevant if any(fn.startswith(RACE_SCOPE) for fn, _ in frames) else unrelated).append((frames, r))
+    return tf, relevant, unrelated
 
 
 def execute_concrete(work, binary, cases, tag):
@@ -230,6 +256,13 @@ def binding_selftest(work, lines, rejected_ids):
 
 def do_replay(work, binary, replay):
     cases = read_ndjson(os.path.abspath(replay))
+    if cases and cases[0].get("ev") == "race":
+        gen, _ = generate(work, 1)
+        _, races, _ = race_part(work, gen, 1, 500, tag="_replay")
+        for frames, _ in races[:5]:
+            print("VIOLATION property=%s replay=%s  # data-race %s" % (PROP, replay, json.dumps(frames[:4])))
+        print("race run repeated, %d reports in scope" % len(races))
+        return 1 if races else 0
     tf, _ = execute_concrete(work, binary, cases, "_replay")
     v = judge(work, tf, tag="_replay")
     for b in v["bad"]:
@@ -251,6 +284,9 @@ def run(tier, seed, replay=None):
             pr = ex.submit(produce, work, binary, tier, seed)
             d.result()
             trace, ngen = pr.result()
+
+        nrace = 500 if tier == "quick" else 4000
+        rtrace, races, unrelated = race_part(work, work.cases_path, seed, nrace)
 
         v = judge(work, trace)
         lines = read_ndjson(trace)
@@ -285,6 +321,28 @@ def run(tier, seed, replay=None):
                 path = save_replay(PROP, case_key(c)[:12], [c]) if len(verdict.violations) < 20 else "(not saved)"
                 verdict.violation(path, ",".join(reasons) + " " + json.dumps(f))
 
+        race_cov = {"cases_on_race_build": len(read_ndjson(rtrace)), "reports_in_scope": len(races),
+                    "reports_elsewhere": len(unrelated), "scope": list(RACE_SCOPE),
+                    "elsewhere_sample": [f for f, _ in unrelated[:3]]}
+        if races:
+            # a report must come back in a second run to count
+            _, again, _ = race_part(work, work.cases_path, seed + 1, nrace, tag="_again")
+            race_cov["reports_in_scope_second_run"] = len(again)
+            seen = set()
+            for frames, report in (races if again else []):
+                writers = ",".join(sorted({fn for fn, _ in frames if fn.startswith(RACE_SCOPE)}))
+                if writers in seen:
+                    continue
+                seen.add(writers)
+                f = {"reason": "data-race", "functions": writers}
+                k = match_known(known, f)
+                if k:
+                    verdict.known_finding(k)
+                    continue
+                path = save_replay(PROP, "race-%s" % hashlib.sha1(writers.encode()).hexdigest()[:10],
+                                   [{"ev": "race", "functions": writers, "frames": frames, "report": report[:6000]}])
+                verdict.violation(path, json.dumps(f))
+
         selftest = binding_selftest(work, lines, {b["id"] for b in v["bad"]})
 
         distinct_nt = len({case_key(c) for c in lines
@@ -305,6 +363,7 @@ def run(tier, seed, replay=None):
             "modes": sorted({c["mode"] for c in lines}),
             "by_trust": {t: sum(1 for c in lines if c.get("trust") == t) for t in ("yes", "no", "open")},
             "far_peers": sum(1 for c in lines if c.get("far")),
+            "race_detector": race_cov,
         })
         verdict.assumptions += [
             "IP addresses are abstract (family + 3 bits); the concretisation maps them to 127.0.0.8-15 and ::0-7 "
